@@ -197,7 +197,8 @@ theorem handlers_again (oc : Outcome) (h : oc.success s.nss = true) (i : Nat) (n
       have := List.getElem?_eq_some_iff.mp hn
       exact this.1
     have hacc := h i hi
-    simp only [attemptEvents, List.mem_map]
+    simp only [attemptEvents, List.mem_append, List.mem_map]
+    left
     have hmem : ∀ (l : List Ns) (b : Nat) (j : Nat) (m : Ns), l[j]? = some m → (b + j, m) ∈ enum b l := by
       intro l
       induction l with
@@ -255,12 +256,22 @@ theorem disabled_never (hr : cfg.reconnection = false) (st : EioState) (task : B
 theorem one_at_a_time (st : EioState) : startsEffort cfg st true = false := by
   simp [startsEffort]
 
-/-- A transport lost inside an attempt of the running effort does not start a second one. -/
-theorem nested_loss_starts_nothing {P : Type} (nss : List Ns) (e : Ev P)
-    (h : e ∈ (attemptEvents cfg nss .lost : List (Ev P))) :
-    e = .notified .connected false := by
-  simp [attemptEvents, eioStateDuring, startsEffort] at h
-  exact h
+/-- Whatever engine.io notifies while an attempt of the running effort is under way (the
+    transport lost again inside the attempt, or the `disconnect()` that `connect()` itself issues
+    after a refusal) starts no second effort. -/
+theorem nested_notifications_start_nothing {P : Type} (nss : List Ns) (oc : Outcome) (st : EioState)
+    (b : Bool) (h : (Ev.notified st b : Ev P) ∈ attemptEvents cfg nss oc) : b = false := by
+  cases oc with
+  | served acc =>
+    simp only [attemptEvents, List.mem_append, List.mem_map] at h
+    cases h with
+    | inl h => obtain ⟨x, _, hx⟩ := h; cases hx
+    | inr h =>
+      split at h
+      · simp at h
+      · simp [startsEffort] at h; exact h.2
+  | transport => simp [attemptEvents] at h
+  | lost => simp [attemptEvents, startsEffort] at h; exact h.2
 
 /-! ### over a whole client history
 
